@@ -1,5 +1,70 @@
 import RV.Json
+import RV.Model.Traffic
+import RV.Oracle.Traffic
 namespace RV.Drv.Traffic
-open Lean RV
-def handle : Handler := fun op _ _ => .error s!"Traffic: op {op} not implemented"
+open Lean RV RV.Traffic
+
+def expOf : String → Exp
+  | "fresh" => .fresh | "elapsed" => .elapsed | _ => .none
+def expStr : Exp → String
+  | .fresh => "fresh" | .elapsed => "elapsed" | .none => "none"
+def ageOf : String → Age
+  | "fresh" => .fresh | "elapsed" => .elapsed | _ => .none
+
+def netOfJson (j : Json) : R Net := do
+  return { stableExists := ← fBool j "stableExists", stableSel := ← fOptStr j "stableSel",
+           canarySvc := ← fOptStr j "canarySvc", stableIngress := ← fBool j "stableIngress",
+           canaryIng := ← fOptNat j "canaryIng" }
+def netToJson (n : Net) : Json :=
+  mkObj [("stableExists", boolJ n.stableExists), ("stableSel", optJ strJ n.stableSel),
+    ("canarySvc", optJ strJ n.canarySvc), ("stableIngress", boolJ n.stableIngress), ("canaryIng", optJ natJ n.canaryIng)]
+def memOfJson (j : Json) : R Mem := do
+  return { patchService := expOf (← fStr j "patchService"), restoreService := expOf (← fStr j "restoreService"),
+           restoreGateway := expOf (← fStr j "restoreGateway"), removeCanaryService := expOf (← fStr j "removeCanaryService") }
+def memToJson (m : Mem) : Json :=
+  mkObj [("patchService", strJ (expStr m.patchService)), ("restoreService", strJ (expStr m.restoreService)),
+    ("restoreGateway", strJ (expStr m.restoreGateway)), ("removeCanaryService", strJ (expStr m.removeCanaryService))]
+def ctxOfJson (j : Json) : R TCtx := do
+  return { hasRef := ← fBool j "hasRef", grace := ← fNat j "grace", weight := ← fOptNat j "weight",
+           disableGen := ← fBool j "disableGen", stableRev := ← fStr j "stableRev", canaryRev := ← fStr j "canaryRev",
+           lastUpdate := ageOf (← fStr j "lastUpdate") }
+def outToJson (o : TOut) : Json :=
+  mkObj [("done", boolJ o.done), ("err", boolJ o.err), ("net", netToJson o.net), ("mem", memToJson o.mem), ("touched", boolJ o.touched),
+    ("writes", arrJ (o.writes.map strJ))]
+def outOfJson (j : Json) : R TOut := do
+  return { done := ← fBool j "done", err := ← fBool j "err", net := ← netOfJson (← jget j "net"),
+           mem := ← memOfJson (← jget j "mem"), touched := ← fBool j "touched",
+           writes := ← (← fArrD j "writes").mapM jstr }
+
+def callOf (call : String) : Option (TCtx → Net → Mem → TOut) :=
+  match call with
+  | "patchStableService" => some patchStableService
+  | "restoreStableService" => some restoreStableService
+  | "restoreGateway" => some restoreGateway
+  | "removeCanaryService" => some removeCanaryService
+  | "finalisingTrafficRouting" => some finalisingTrafficRouting
+  | "doTrafficRouting" => some doTrafficRouting
+  | _ => none
+
+def handle : Handler := fun op inp impl => do
+  match op with
+  | "call" =>
+    let call ← fStr inp "call"
+    let c ← ctxOfJson (← jget inp "ctx")
+    let n ← netOfJson (← jget inp "net")
+    let m ← memOfJson (← jget inp "mem")
+    match callOf call with
+    | none => .error s!"traffic: unknown call {call}"
+    | some f =>
+      let o := f c n m
+      let holds ← (match jopt impl "panic" with
+        | some _ => pure [("C09.traffic_no_panic", false)]
+        | none => do
+          let io ← outOfJson impl
+          pure (RV.Oracle.Traffic.callOracles call c n m io))
+      return { model := outToJson o, holds := holds,
+               tags := [s!"call:{call}", if o.done then "res:true" else "res:false", if o.err then "err" else "noerr",
+                        if o.net != n then "netwrite" else "nonetwrite", s!"grace:{c.grace}"] }
+  | _ => .error s!"traffic: unknown op {op}"
+
 end RV.Drv.Traffic
